@@ -8,6 +8,7 @@ CONSTANTS
   PWs = {"p1", "p2", "p3"}
   PubPWs = {"pub1", "pub2"}
   Names = {"alice"}
+  XNames = {"xacct"}
   ImpIds = {"k1", "s1"}
   MaxSync = 0
   Outcomes = {"commit", "rollback"}
